@@ -16,6 +16,7 @@ pub const G_CORE: u32 = 16; // small representative subset (expensive shapes)
 pub const G_RAW: u32 = 32; // backends with raw parts (Heap, Empty)
 pub const G_ALIGN: u32 = 128; // over-aligned elements on inline backends: placement shape only
 pub const G_GRID: u32 = 256; // generated Stack/StackN SIZE x N grid (C11)
+pub const G_PAIRS: u32 = 512; // generated (element type, offered type) matrix (C04)
 pub const G_FAULT: u32 = 64; // tracked layouts for fault injection / forget
 
 pub struct ConfigEntry {
